@@ -381,6 +381,27 @@ def run_case(case, res):
                 res.count("getitem:strict_hook")
                 if (got is not exp) if not isinstance(exp, tuple) else (got != exp):
                     bad.append(f"tree[{key!r}] on a tree whose id hook only accepts its own records: got {got!r}, expected {exp!r}")
+            # data objects that happen to be callable (functions of a call graph, classes of a hierarchy): looked up by data like
+            # any other object - only `match=` takes a predicate
+            ct = _HT("callables")
+            cdata = [len, int, _has_label, _LeafTest]
+            cn = [ct.add(cdata[0]), ct.add(cdata[1])]
+            cn.append(cn[0].add(cdata[2]))
+            cn.append(cn[1].add(cdata[2]))  # a clone
+            for d, hits in ((cdata[0], [cn[0]]), (cdata[1], [cn[1]]), (cdata[2], [cn[2], cn[3]]), (cdata[3], [])):
+                got = attempt(lambda: ct.find_all(d))
+                res.count("lookups_of_callable_data")
+                if not isinstance(got, list) or ident(got) != ident(hits):
+                    bad.append(f"find_all(<callable data {getattr(d, '__name__', d)}>): got {got!r}, expected {hits!r}")
+                g1 = attempt(lambda: ct.find_first(d))
+                if g1 is not (hits[0] if hits else None):
+                    bad.append(f"find_first(<callable data {getattr(d, '__name__', d)}>): got {g1!r}")
+                if attempt(lambda: d in ct) is not bool(hits):
+                    bad.append(f"<callable data {getattr(d, '__name__', d)}> in tree: wrong answer")
+                gi = attempt(lambda: ct[d])
+                expi = hits[0] if len(hits) == 1 else ("EXC", "AmbiguousMatchError") if hits else ("EXC", "KeyError")
+                if (gi is not expi) if not isinstance(expi, tuple) else (gi != expi):
+                    bad.append(f"tree[<callable data {getattr(d, '__name__', d)}>]: got {gi!r}, expected {expi!r}")
             if order:
                 got = attempt(lambda: t[order[0]])
                 if got != ("EXC", "ValueError"):
